@@ -95,7 +95,7 @@ var rogueMutations = []string{"unknown-duid", "empty-duid", "empty-key", "other-
 	"cp-future", "cp-cseq-future", "cp-zero", "cp-swapped", "cp-nil", "ops-drop-first", "ops-repeat", "ops-reverse", "ops-foreign-cuid",
 	"ops-seq0", "ops-nil-id", "wrong-type", "unknown-collection", "unregistered-cuid", "admin-cuid", "empty-cuid", "no-packs",
 	"client-admin", "client-unknown-collection", "client-empty-cuid", "patch-unknown-collection", "patch-bad-json", "patch-array-json",
-	"patch-non-document", "collection-empty-name", "reset-unknown", "foreign-duid", "other-collection", "client-other-collection", "used-duid"}
+	"patch-non-document", "collection-empty-name", "reset-unknown", "foreign-duid", "other-collection", "client-other-collection", "used-duid", "dup-pack", "dup-pack"}
 
 func (r *run) baseRequest(i int, needOps bool) *model.PushPullMessage {
 	var cands []*call
@@ -131,6 +131,7 @@ func (r *run) rogue(e Ev) {
 		mut = rogueMutations[g.Intn(len(rogueMutations))]
 	}
 	needOps := strings.HasPrefix(mut, "ops-") || mut == "readonly-push"
+	var rogueMF []MongoFault
 	var usedKey, usedBefore string
 	var usedNum int32
 	var method string
@@ -159,6 +160,11 @@ func (r *run) rogue(e Ev) {
 			}
 		}
 		method, req = "ProcessClient", m
+		if mut == "client-other-collection" && g.Chance(1, 2) {
+			// the database fails while the server looks the client up: that must not turn the request
+			// into the registration of a new client
+			rogueMF = []MongoFault{{At: 1 + g.Intn(3), Kind: "errBefore"}}
+		}
 	case strings.HasPrefix(mut, "patch-"):
 		a := r.actor(e.A)
 		m := &model.PatchMessage{Collection: a.collection, Key: "pk", Json: `{"a":1}`}
@@ -323,6 +329,10 @@ func (r *run) rogue(e Ev) {
 			base.Cuid = ""
 		case "no-packs":
 			base.PushPullPacks = nil
+		case "dup-pack":
+			// the same pack twice in one message (two packs for one key): answered like any other request
+			q := proto.Clone(p).(*model.PushPullPack)
+			base.PushPullPacks = []*model.PushPullPack{p, q}
 		}
 		method, req = "ProcessPushPull", base
 	}
@@ -339,7 +349,7 @@ func (r *run) rogue(e Ev) {
 	}
 	r.probe("rogue-sent")
 	r.probe("rogue-" + mut)
-	res := r.sendAs("rogue", method, req)
+	res := r.sendAsFaulty("rogue", method, req, rogueMF)
 	r.logf("rogue %s %s -> err=%v refused=%v", method, mut, res.err, refused(res))
 	r.trace.Str("rogue").Str(mut)
 	if res.err != nil && res.err.Error() == "no answer" {
